@@ -1320,7 +1320,19 @@ class SQLModel:
                 # an empty term list would be rendered as "*" and drop the sub-query's own calculation
                 subsql.terms = narrowed_terms
         else:
-            subsql.terms = []
+            # raw query step (e.g. a record conversion): its columns can only be narrowed by an outer SELECT
+            view_name = "select_columns_" + str(temp_id_source[0])
+            temp_id_source[0] = temp_id_source[0] + 1
+            return data_algebra.near_sql.NearSQLUnaryStep(
+                terms={k: None for k in subusing},
+                query_name=view_name,
+                quoted_query_name=self.quote_identifier(view_name),
+                sub_sql=subsql.to_bound_near_sql(),
+                annotation=str(
+                    select_columns_node.to_python_src_(print_sources=False, indent=-1)
+                ),
+                ops_key=f"select_columns({select_columns_node}, {subusing})",
+            )
         return subsql
 
     def drop_columns_to_near_sql(
@@ -1346,6 +1358,25 @@ class SQLModel:
         subsql = drop_columns_node.sources[0].to_near_sql_implementation_(
             db_model=self, using=subusing, temp_id_source=temp_id_source
         )
+        if subsql.terms is None:
+            # raw query step (e.g. a record conversion): its columns can only be narrowed by an outer SELECT
+            keep = [
+                k
+                for k in drop_columns_node.column_names
+                if (k in using) and (k not in drop_columns_node.column_deletions)
+            ]
+            view_name = "drop_columns_" + str(temp_id_source[0])
+            temp_id_source[0] = temp_id_source[0] + 1
+            return data_algebra.near_sql.NearSQLUnaryStep(
+                terms={k: None for k in keep},
+                query_name=view_name,
+                quoted_query_name=self.quote_identifier(view_name),
+                sub_sql=subsql.to_bound_near_sql(),
+                annotation=str(
+                    drop_columns_node.to_python_src_(print_sources=False, indent=-1)
+                ),
+                ops_key=f"drop_columns({drop_columns_node}, {keep})",
+            )
         # /limit columns
         narrowed_terms = {
             k: subsql.terms[k]
